@@ -8,6 +8,8 @@ from ..core import FUNC, call_attr, calls_in, const, dotted, is_const, kwarg, no
 from .c09 import waiter_rule, _stored_in_cancelled_table
 
 EXPLANATION = [
+    'C16.pending-table-scope: the per-connection table of pending enhanced credit-based requests is dropped only by ChannelManager.on_disconnection; everything else removes its own identifier from the inner table.',
+    'C16.loss-not-swallowed: in bumble.device / bumble.host, no handler that swallows a failure of an awaited HCI command (catching a class that covers TransportLostError without re-raising or returning) is followed by another await (other than a further command, which fails at once) in the same function.',
     'C16.source-loss-reported: every transport read loop that records a failure with terminated.set_exception also calls on_transport_lost in the same handler: the host is told through its sink interface.',
     'C16.lost-transport-senders: Host.on_transport_lost fails the pending response and, when none is pending, releases a locked command semaphore; _send_command raises TransportLostError once it holds the semaphore: no sender waits for ever after the loss.',
     "C16.gone-connection: Connection.cancel_on_disconnection cancels at once when the connection is no longer registered with its device (the 'disconnection' event it would wait for has already been emitted), and Device.disconnect refuses a link that is in none of the device's tables before sending anything.",
@@ -647,7 +649,58 @@ def source_loss_reported(ctx):
     R.check(n >= 1, rule, 'bumble.transport | failing read loops', f'{n} site(s) record a read failure', 'no site found (anchor moved)')
 
 
+def loss_not_swallowed(ctx):
+    """An `except` around an awaited HCI command that also catches TransportLostError (BaseBumbleError, Exception, bare) and
+    carries on must not be followed by another wait: the one `flush` / loss notification has already been delivered, so a
+    wait armed afterwards is never released."""
+    R, p = ctx.r, ctx.p
+    rule = 'C16.loss-not-swallowed'
+    SEND = ('send_command', 'send_sync_command', 'send_async_command', 'send_sync_command_raw')
+    COVER = ('BaseBumbleError', 'Exception', 'BaseException', '<bare>', 'TransportLostError')
+    n = 0
+    for mn in ('bumble.device', 'bumble.host'):
+        m = p.modules.get(mn)
+        if m is None:
+            R.bad(rule, mn, 'anchor missing')
+            continue
+        for fn in [x for x in ast.walk(m.tree) if isinstance(x, FUNC)]:
+            for t in [x for x in walk_local(fn) if isinstance(x, ast.Try)]:
+                if not any(isinstance(x, ast.Await) and isinstance(x.value, ast.Call) and call_attr(x.value) in SEND for s_ in t.body for x in ast.walk(s_)):
+                    continue
+                n += 1
+                for h in t.handlers:
+                    names = ['<bare>'] if h.type is None else [norm(e).split('.')[-1] for e in (h.type.elts if isinstance(h.type, ast.Tuple) else [h.type])]
+                    if not set(names) & set(COVER) or any(isinstance(x, (ast.Raise, ast.Return)) for x in ast.walk(h)):
+                        continue
+                    end = getattr(t, 'end_lineno', t.lineno)
+                    later = [x for x in walk_local(fn) if isinstance(x, ast.Await) and x.lineno > end and not (isinstance(x.value, ast.Call) and call_attr(x.value) in SEND)]  # a command sent after the loss fails at once
+                    R.check(not later, rule, f'{p.qual_of(t)} | except {"/".join(names)}', 'nothing is awaited after the swallowed failure', f'the failure of the command (a lost transport included: TransportLostError is a {"/".join(names)}) is swallowed and the function then waits again (`{norm(later[0])[:60] if later else ""}`): after a transport loss that wait is armed when the flush has already been emitted, and the caller hangs', f'{m.rel}:{h.lineno}')
+    R.check(n >= 5, rule, 'bumble.device, bumble.host | try blocks around awaited commands', f'{n}', f'only {n} found')
+
+
+def pending_table_scope(ctx):
+    """pending_credit_based_connections is keyed by connection handle, then by request identifier: a request that ends
+    removes its own entry of the inner table; the whole per-connection table is dropped only when the connection goes
+    (on_disconnection, which cancels every waiter in it first)."""
+    R, p = ctx.r, ctx.p
+    rule = 'C16.pending-table-scope'
+    ci = p.cls('bumble.l2cap.ChannelManager')
+    if ci is None:
+        R.bad(rule, 'bumble.l2cap.ChannelManager', 'anchor missing')
+        return
+    n = 0
+    for name, fn in sorted(ci.methods.items()):
+        rm = [c for c in calls_in(fn) if call_attr(c) in ('pop', 'clear', 'popitem') and dotted(c.func.value) == 'self.pending_credit_based_connections']
+        rm += [d for d in walk_local(fn) if isinstance(d, ast.Delete) and any(isinstance(t, ast.Subscript) and dotted(t.value) == 'self.pending_credit_based_connections' for t in d.targets)]
+        for c in rm:
+            n += 1
+            R.check(name == 'on_disconnection', rule, f'bumble.l2cap.ChannelManager.{name} | drops a per-connection table', 'only when the connection goes', f'{name} removes the whole table of pending requests of the connection (`{norm(c)[:60]}`): the other requests still waiting on that connection are forgotten and on_disconnection / a transport loss no longer releases them', p.loc(c))
+    R.check(n >= 1, rule, 'bumble.l2cap.ChannelManager | outer-table removals', f'{n} (on_disconnection)', 'none found')
+
+
 RULES = [
+    ('C16.pending-table-scope', pending_table_scope),
+    ('C16.loss-not-swallowed', loss_not_swallowed),
     ('C16.source-loss-reported', source_loss_reported),
     ('C16.lost-transport-senders', lost_transport_senders),
     ('C16.gone-connection', gone_connection),
